@@ -399,7 +399,15 @@ fn observe_dir_inner(dir: &SimDir, tracer: &Tracer) -> Result<Value, String> {
     let metas = index.load_metas().map_err(|e| format!("load_metas: {}", errclass(&e)))?;
     let reader: IndexReader = index.reader_builder().reload_policy(ReloadPolicy::Manual).try_into().map_err(|e: tantivy::TantivyError| format!("reader: {}", errclass(&e)))?;
     let s = reader.searcher();
-    let schema = index.schema();
+    let mut v = observe_searcher(&s, tracer)?;
+    v["metaop"] = json!(metas.opstamp);
+    v["payload"] = json!(metas.payload);
+    Ok(v)
+}
+
+/// Read everything back through a given searcher (no metadata: a searcher does not know them).
+pub fn observe_searcher(s: &tantivy::Searcher, tracer: &Tracer) -> Result<Value, String> {
+    let schema = s.schema().clone();
     let idf = schema.get_field("id").unwrap();
     let tf = schema.get_field("t").unwrap();
     let vf = schema.get_field("v").unwrap();
@@ -446,7 +454,7 @@ fn observe_dir_inner(dir: &SimDir, tracer: &Tracer) -> Result<Value, String> {
         byterm.insert(t, json!(ids));
     }
     let all = s.search(&AllQuery, &tantivy::collector::Count).map_err(|e| format!("count: {}", errclass(&e)))?;
-    Ok(json!({"ok":true,"metaop":metas.opstamp,"payload":metas.payload,"segs":segs,"byterm":Value::Object(byterm),"n":n,"count_all":all}))
+    Ok(json!({"ok":true,"segs":segs,"byterm":Value::Object(byterm),"n":n,"count_all":all}))
 }
 
 /// keep `regs` current from the registers hook (called by the sink wrapper)
